@@ -3,9 +3,8 @@ import GojaModel.C01.EmitProof
   C01 property theorems.  Every `theorem` here is one audited proof obligation.
 
   (a) putOnStack discipline of the expression emitter, for ALL expressions of the modelled AST, all entry heights,
-      both values of putOnStack: `emit_height` (patched `emitSetP`), `emit_height_strict_partial` (code as it is
-      today, strict mode only), `emit_height_witness` (code as it is today violates the full statement in sloppy
-      mode — known finding C01-sloppy-const-setp).
+      both values of putOnStack: `emit_height`, `emitExpr_height`, `emit_height_exec` (full strength, current compiler);
+      `emit_height_prefix_witness` = regression lemma about the mechanism before fix 5a4962f.
   (b) `verify_sound` and its corollaries: what the proven verifier's acceptance means for every run of the abstract
       stack-height machine (nondeterministic branches, a throw possible at every instruction).
   (c) the panic payload classifier is total on the documented payload kinds and re-panics everything else.
@@ -14,22 +13,21 @@ namespace GojaModel.C01
 
 /-! ### (a) -/
 
-/-- Full strength, for a compiler whose `emitSetP` pops the value of an ignored sloppy-mode const assignment
-(the patch fixes/C01-sloppy-const-setp.diff; `cfg.setPPops` is regenerated from compiler.go on every run):
-for every expression, every entry height `h`, and both values of putOnStack, the emitted code never needs an
-operand below the entry height, all merging control paths agree, and if control reaches the end it does so with
-exactly `h + 1` (putOnStack) resp. `h` operands. -/
-theorem emit_height (cfg : Cfg) (hfix : cfg.setPPops = true) (e : Expr) (p : Bool) (h : Nat) :
+/-- Full strength, about the compiler as it is (after fix 5a4962f; `Tie.emitSetP_pops` pins the regenerated shape of
+`binding.emitSetP`): for every expression, every compiler configuration, every entry height `h`, and both values of
+putOnStack, the emitted code never needs an operand below the entry height, all merging control paths agree, and if
+control reaches the end it does so with exactly `h + 1` (putOnStack) resp. `h` operands. -/
+theorem emit_height (cfg : Cfg) (e : Expr) (p : Bool) (h : Nat) :
     HasHt (emitG cfg e p) h (h + if p then 1 else 0) := by
-  have d := emitG_disc cfg (Or.inl hfix) e
+  have d := emitG_disc cfg e
   cases p
   · exact d.2 h
   · exact d.1 h
 
 /-- The same through the constant-folding entry point `emitExpr` (compiler_expr.go:3287). -/
-theorem emitExpr_height (cfg : Cfg) (hfix : cfg.setPPops = true) (e : Expr) (p : Bool) (h : Nat) :
+theorem emitExpr_height (cfg : Cfg) (e : Expr) (p : Bool) (h : Nat) :
     HasHt (emitE cfg e p) h (h + if p then 1 else 0) := by
-  have d := emitG_disc cfg (Or.inl hfix) e
+  have d := emitG_disc cfg e
   unfold emitE
   cases p
   · exact foldOr_f d.2 h
@@ -37,30 +35,17 @@ theorem emitExpr_height (cfg : Cfg) (hfix : cfg.setPPops = true) (e : Expr) (p :
 
 /-- The executable height function agrees: it returns `dead` (the code throws on every path) or `live (h+δ)`;
 never `none` (underflow / disagreeing paths). -/
-theorem emit_height_exec (cfg : Cfg) (hfix : cfg.setPPops = true) (e : Expr) (p : Bool) (h : Nat) :
+theorem emit_height_exec (cfg : Cfg) (e : Expr) (p : Bool) (h : Nat) :
     (emitG cfg e p).height (.live h) = some .dead ∨
     (emitG cfg e p).height (.live h) = some (.live (h + if p then 1 else 0)) :=
-  (emit_height cfg hfix e p h).sound
+  (emit_height cfg e p h).sound
 
-/-- PARTIAL (what holds for the compiler as it is today, `setPPops = false`): the discipline holds in strict code.
-Missing: sloppy code, where `emitSetP` on a non-strict const binding (the name of a function expression) leaves the
-assigned value on the stack — see `emit_height_witness`. -/
-theorem emit_height_strict_partial (cfg : Cfg) (hs : cfg.strict = true) (e : Expr) (p : Bool) (h : Nat) :
-    HasHt (emitG cfg e p) h (h + if p then 1 else 0) := by
-  have d := emitG_disc cfg (Or.inr hs) e
-  cases p
-  · exact d.2 h
-  · exact d.1 h
-
-/-- WITNESS of the defect in the code as it is today: `f = 5` with `f` the sloppy function-expression name and the
-value discarded (e.g. `(function f(){ var r=[1,(f = 5, 2)] })()`) leaves one operand too many. -/
-theorem emit_height_witness :
-    ¬ (∀ (e : Expr) (p : Bool) (h : Nat),
-        (emitG ⟨false, false⟩ e p).height (.live h) = some .dead ∨
-        (emitG ⟨false, false⟩ e p).height (.live h) = some (.live (h + if p then 1 else 0))) := by
-  intro hall
-  have := hall (.assignId (.const false) "f" (.lit (.num 5))) false 0
-  revert this
+/-- Regression lemma about the mechanism BEFORE fix 5a4962f (`emitBindingSetPrefix`): `f = 5` with `f` the sloppy
+function-expression name and the value discarded — right operand followed by the old `emitSetP` — ended one operand
+too high. (`(function f(){ var r=[1,(f = 5, 2)] })()` crashed the host.) -/
+theorem emit_height_prefix_witness :
+    (Code.seq (.ins iLoadVal) (emitBindingSetPrefix ⟨false⟩ (.const false) false)).height (.live 0) = some (.live 1)
+    ∧ (emitG ⟨false⟩ (.assignId (.const false) "f" (.lit (.num 5))) false).height (.live 0) = some (.live 0) := by
   decide
 
 /-! ### (b) -/
@@ -156,7 +141,7 @@ theorem classify_uncatchable_not_catchable (p : Payload) (h : asUncatchableOk p 
 /-! ### non-vacuity (tests on literals, labelled as such) -/
 
 /-- test: the folded-AND expression of the repaired defect f6a1b71, `(0 && a, 2)` as an array element. -/
-example : (emitG ⟨false, true⟩ (.array (.cons (.lit (.num 1)) (.cons
+example : (emitG ⟨false⟩ (.array (.cons (.lit (.num 1)) (.cons
     (.comma (.logical .and (.lit (.num 0)) (.ident .lexVar "a")) (.lit (.num 2))) .nil))) true).height (.live 0)
     = some (.live 1) := by decide
 
